@@ -93,29 +93,30 @@ type machine struct {
 	notes    map[string]value
 
 	// threads
-	threads  []*thread
-	cur      *thread
-	doneCh   chan interface{}
-	wg       sync.WaitGroup
-	locks    map[*value]*lockState
-	preempts int
-	clock    *symv
-	uuidN    int
-	tickBudget int
+	threads           []*thread
+	cur               *thread
+	doneCh            chan interface{}
+	wg                sync.WaitGroup
+	locks             map[*value]*lockState
+	preempts          int
+	timerYields       int
+	clock             *symv
+	uuidN             int
+	tickBudget        int
 	lastDoneSawClosed map[int]bool
-	stopRequested bool
-	ctxKids map[*ctxV][]*ctxV
-	initRunning *ssa.Package
-	fsm *fsModel
-	hadKnown bool
-	syncMaps map[*value]*mapV
-	traceWhere []string
-	builders map[*value]value
-	errNotExist iface
-	concrete []NondetVal
-	cpos int
-	concreteMode bool
-	panicStack []string
+	stopRequested     bool
+	ctxKids           map[*ctxV][]*ctxV
+	initRunning       *ssa.Package
+	fsm               *fsModel
+	hadKnown          bool
+	syncMaps          map[*value]*mapV
+	traceWhere        []string
+	builders          map[*value]value
+	errNotExist       iface
+	concrete          []NondetVal
+	cpos              int
+	concreteMode      bool
+	panicStack        []string
 }
 
 func newMachine(p *Program, cfg Config, sol *Solver, prefix []decision, res *Result) *machine {
